@@ -414,7 +414,7 @@ func TestC11(t *testing.T) {
 	}
 	db.SeedWRS(int64(kit.RapidSeed(1000)))
 	// (a) bounded and sound, directly on db.Wrs
-	kit.SetRapid(kit.N(160000, 8000000))
+	kit.SetRapid(kit.N(160000, 4000000))
 	rapid.Check(t, kit.Prop("C11", func(t *rapid.T) {
 		cs := c11Case{Part: "unit", Max: rapid.IntRange(1, 8).Draw(t, "max"), V4: genCands(t, "v4", false, 0), V6: genCands(t, "v6", true, 0)}
 		kit.Case(cs)
@@ -426,7 +426,7 @@ func TestC11(t *testing.T) {
 		kit.Sample(cs)
 	}))
 	// (c) proportionality for one pick out of 2..5 positive candidates
-	kit.SetRapid(kit.N(3200, 160000))
+	kit.SetRapid(kit.N(3200, 80000))
 	rapid.Check(t, kit.Prop("C11", func(t *rapid.T) {
 		k := rapid.IntRange(2, 5).Draw(t, "k")
 		cs := c11Case{Part: "freq", Max: 1}
@@ -446,7 +446,7 @@ func TestC11(t *testing.T) {
 		kit.Class(fmt.Sprintf("freq:k%d", k))
 	}))
 	// (b) end to end through the three backends (answer and additional sections)
-	kit.SetRapid(kit.N(48, 1600))
+	kit.SetRapid(kit.N(48, 800))
 	rapid.Check(t, kit.Prop("C11", func(t *rapid.T) {
 		cs := c11Case{Part: "e2e", Max: rapid.SampledFrom([]int{1, 1, 2, 3, 8}).Draw(t, "max")}
 		cs.V4 = genCands(t, "v4", false, 1)
